@@ -226,6 +226,50 @@ func c02Run(e *core.Env) {
 			}
 		}
 	}
+	// special operands: "DivisionByZero, DivisionUndefined, DivisionImpossible and InvalidOperation exactly in the
+	// cases the specification assigns them" - NaN/sNaN (signs, payloads), clean and dirty infinities and signed
+	// zeros through every operation of this property, against the special-value table of C08 (value and flags)
+	{
+		al := c08Alphabet()
+		var spx []Operand
+		for _, o := range al {
+			if o.V.Form != ref.Finite || o.V.Coef.Sign() == 0 || (o.V.Coef.Cmp(big.NewInt(1)) == 0 && o.V.Exp == 0) || o.J.Coef == "7" {
+				spx = append(spx, o)
+			}
+		}
+		sctx := []CtxCase{MkCtx(3, -3, 9, apd.RoundHalfEven, 0), MkCtx(5, -6143, 6144, apd.RoundFloor, 0)}
+		n := int64(0)
+		for ix := range spx {
+			n++
+			if !e.Mine(n) {
+				continue
+			}
+			e.State()
+			for _, cc := range sctx {
+				for _, op := range c02Unary {
+					cls, _, msg := c08One(op, spx[ix], nil, 0, cc)
+					e.Trans(1)
+					e.Outcome("special/"+cls, false)
+					if msg != "" {
+						a := mkCase(op, spx[ix], nil, cc)
+						e.Fail(op+"/special", "special", a, a.String()+": "+msg)
+					}
+				}
+				for iy := range spx {
+					y := spx[iy]
+					for _, op := range c02Binary {
+						cls, _, msg := c08One(op, spx[ix], &y, 0, cc)
+						e.Trans(1)
+						e.Outcome("special/"+cls, false)
+						if msg != "" {
+							a := mkCase(op, spx[ix], &y, cc)
+							e.Fail(op+"/special", "special", a, a.String()+": "+msg)
+						}
+					}
+				}
+			}
+		}
+	}
 	for ix := range sp.Xs {
 		if !e.Mine(int64(ix)) {
 			continue
@@ -323,6 +367,13 @@ func c02Replay(kind string, raw json.RawMessage) string {
 	if a.Exp != nil {
 		q = *a.Exp
 	}
+	if kind == "special" {
+		_, _, msg := c08One(a.Op, x, y, q, a.Ctx.Ctx())
+		if msg != "" {
+			return a.String() + ": " + msg
+		}
+		return ""
+	}
 	_, _, msg := c02One(a.Op, x, y, q, a.Ctx.Ctx())
 	if msg != "" {
 		return a.String() + ": " + msg
@@ -334,7 +385,7 @@ func init() {
 	core.Register(&core.Prop{
 		ID:    "C02",
 		Title: "Condition flags describe exactly what happened to the result",
-		Rule:  "every (operation x operands x context) point is executed with an empty trap set and its Condition compared bit-for-bit (Inexact, Subnormal, Underflow, Overflow, DivisionByZero, DivisionUndefined, DivisionImpossible, InvalidOperation) with the flags the reference model derives from the exact result; Rounded/Clamped through implications only; non-trivial = reference expects at least one flag",
+		Rule:  "every (operation x operands x context) point is executed with an empty trap set and its Condition compared bit-for-bit (Inexact, Subnormal, Underflow, Overflow, DivisionByZero, DivisionUndefined, DivisionImpossible, InvalidOperation) with the flags the reference model derives from the exact result; Rounded/Clamped through implications only; non-trivial = reference expects at least one flag; special operands (NaN/sNaN with signs and payloads, clean and dirty infinities, signed zeros, 1, 7) through every operation of the property against the special-value table (value and exact flags)",
 		Bounds: func(tier string) string {
 			return buildArithSpace(tier, 0).Desc + "; ops Add,Sub,Mul,Quo,QuoInteger,Rem on X x Y; Round,Reduce,RoundToIntegralExact,Sqrt,Quantize(exp in [-4,4] quick / [-7,7] thorough) on U; Sqrt additionally on DENSE(3|4) x 10 exponents + SHAPE(10|14) at p in {1..9,16}"
 		},
